@@ -428,11 +428,9 @@ private:
                                 , int         plane
                                 )
    {
-       ///@todo: why is
-       /// using row_buffer_helper_t = Buffer;
-       /// not working? I get compiler error with MSVC10.
-       /// read_stripped_data IS working.
-       using row_buffer_helper_t = detail::row_buffer_helper_view<View>;
+       // the tiles are decoded into a buffer of the file's pixel type (Buffer), as read_stripped_data does: a buffer
+       // typed after the destination view makes a converting read reinterpret the file's samples as destination pixels
+       using row_buffer_helper_t = Buffer;
 
        using it_t = typename row_buffer_helper_t::iterator_t;
 
@@ -551,11 +549,9 @@ private:
                             , int         plane
                             )
    {
-       ///@todo: why is
-       /// using row_buffer_helper_t = Buffer;
-       /// not working? I get compiler error with MSVC10.
-       /// read_stripped_data IS working.
-       using row_buffer_helper_t = detail::row_buffer_helper_view<View>;
+       // the tiles are decoded into a buffer of the file's pixel type (Buffer), as read_stripped_data does: a buffer
+       // typed after the destination view makes a converting read reinterpret the file's samples as destination pixels
+       using row_buffer_helper_t = Buffer;
 
        using it_t = typename row_buffer_helper_t::iterator_t;
 
